@@ -219,10 +219,14 @@ func c06mCalls() []c06mCall {
 	one("FindIndex", func(m compat.Matcher, b []byte, s string, rd func() io.RuneReader) any { return m.FindIndex(b) })
 	one("FindString", func(m compat.Matcher, b []byte, s string, rd func() io.RuneReader) any { return m.FindString(s) })
 	one("FindStringIndex", func(m compat.Matcher, b []byte, s string, rd func() io.RuneReader) any { return m.FindStringIndex(s) })
-	one("FindReaderIndex", func(m compat.Matcher, b []byte, s string, rd func() io.RuneReader) any { return m.FindReaderIndex(rd()) })
+	one("FindReaderIndex", func(m compat.Matcher, b []byte, s string, rd func() io.RuneReader) any {
+		return m.FindReaderIndex(rd())
+	})
 	one("FindSubmatch", func(m compat.Matcher, b []byte, s string, rd func() io.RuneReader) any { return m.FindSubmatch(b) })
 	one("FindSubmatchIndex", func(m compat.Matcher, b []byte, s string, rd func() io.RuneReader) any { return m.FindSubmatchIndex(b) })
-	one("FindStringSubmatch", func(m compat.Matcher, b []byte, s string, rd func() io.RuneReader) any { return m.FindStringSubmatch(s) })
+	one("FindStringSubmatch", func(m compat.Matcher, b []byte, s string, rd func() io.RuneReader) any {
+		return m.FindStringSubmatch(s)
+	})
 	one("FindStringSubmatchIndex", func(m compat.Matcher, b []byte, s string, rd func() io.RuneReader) any {
 		return m.FindStringSubmatchIndex(s)
 	})
